@@ -8,7 +8,7 @@ import (
 
 // Block-structured programs (the grammar of C01/C12):
 //
-//	B ::= task | seq(B,B) | xor(B|ε ...; default) | par(B...) | incl(B...; default) | loop(B) | sub(B) | side(task; cond -> task -> end)
+//	B ::= task | dec (task writing a boolean result that its own two conditional out-flows read) | seq(B,B) | xor(B|ε ...; default) | par(B...) | incl(B...; default) | loop(B) | sub(B) | side(task; cond -> task -> end)
 //
 // rendered to a flat Graph. Names are assigned from per-kind counters in depth-first order and
 // do not depend on sub-process wrappers, so that a program and its wrapped variants (C12) use the
@@ -28,6 +28,7 @@ func Par(kids ...*Block) *Block           { return &Block{Kind: "par", Kids: kid
 func LoopB(b *Block) *Block               { return &Block{Kind: "loop", Kids: []*Block{b}, Default: -1} }
 func SubB(b *Block) *Block                { return &Block{Kind: "sub", Kids: []*Block{b}, Default: -1} }
 func Side() *Block                        { return &Block{Kind: "side", Default: -1} }
+func Dec() *Block                         { return &Block{Kind: "dec", Default: -1} }
 func Xor(def int, kids ...*Block) *Block  { return &Block{Kind: "xor", Kids: kids, Default: def} }
 func Incl(def int, kids ...*Block) *Block { return &Block{Kind: "incl", Kids: kids, Default: def} }
 
@@ -39,6 +40,8 @@ func (b *Block) String() string {
 		return "ε"
 	case "side":
 		return "side"
+	case "dec":
+		return "dec"
 	}
 	var ks []string
 	for _, k := range b.Kids {
@@ -75,7 +78,7 @@ func (b *Block) depth() int {
 			d = x
 		}
 	}
-	if b.Kind == "task" || b.Kind == "empty" || b.Kind == "side" || b.Kind == "seq" {
+	if b.Kind == "task" || b.Kind == "empty" || b.Kind == "side" || b.Kind == "dec" || b.Kind == "seq" {
 		return d
 	}
 	return d + 1
@@ -91,14 +94,15 @@ type Program struct {
 	Vars     []string // boolean variables steering the conditions
 	Counters []string // loop counter variables, with the task that increments them
 	CntTask  map[string]string
+	FlipTask map[string]string // decision tasks: the boolean result each one negates
 }
 
 type renderer struct {
-	nt, nx, np, no, nl, ns, nside int
-	nv                            int
-	p                             *Program
-	maxVars                       int
-	stack                         []string
+	nt, nx, np, no, nl, ns, nside, ndec int
+	nv                                  int
+	p                                   *Program
+	maxVars                             int
+	stack                               []string
 }
 
 func (r *renderer) ctx() string {
@@ -157,6 +161,25 @@ func (r *renderer) render(g *Graph, b *Block) (entry, exit *Node) {
 		g.Link(t, s, Var(r.nextVar()))
 		g.Link(s, e, nil)
 		return t, t
+	case "dec":
+		// decision task: its answer writes the boolean result r<k> (declared), and its own two
+		// conditional outgoing flows read it: r<k> -> da<k>, !r<k> -> db<k>; both merge again.
+		// The conditions must see the value written by this very answer.
+		r.ndec++
+		v := fmt.Sprintf("r%d", r.ndec)
+		t := r.add(g, Task, fmt.Sprintf("dt%d", r.ndec))
+		t.Results = []string{v}
+		t.RTypes = []string{"boolean"}
+		a := r.add(g, Task, fmt.Sprintf("da%d", r.ndec))
+		bb := r.add(g, Task, fmt.Sprintf("db%d", r.ndec))
+		m := r.add(g, XOR, fmt.Sprintf("dm%d", r.ndec))
+		g.Link(t, a, Var(v))
+		g.Link(t, bb, NotVar(v))
+		g.Link(a, m, nil)
+		g.Link(bb, m, nil)
+		r.p.Vars = append(r.p.Vars, v)
+		r.p.FlipTask[t.ID] = v
+		return t, m
 	case "seq":
 		e1, x1 := r.render(g, b.Kids[0])
 		e2, x2 := r.render(g, b.Kids[1])
@@ -265,7 +288,7 @@ func (r *renderer) render(g *Graph, b *Block) (entry, exit *Node) {
 
 // Render builds the program start -> B -> end.
 func Render(id string, b *Block) *Program {
-	p := &Program{B: b, G: NewGraph(id), CntTask: map[string]string{}, Ctx: map[string]string{}}
+	p := &Program{B: b, G: NewGraph(id), CntTask: map[string]string{}, FlipTask: map[string]string{}, Ctx: map[string]string{}}
 	r := &renderer{p: p, maxVars: 3}
 	st := r.add(p.G, Start, "start")
 	en := r.add(p.G, End, "end")
@@ -285,7 +308,33 @@ func (p *Program) Answer(id string, visit int, vars map[string]any) map[string]a
 	if v, ok := p.CntTask[id]; ok {
 		return map[string]any{v: intOf(vars[v]) + 1}
 	}
+	if v, ok := p.FlipTask[id]; ok {
+		return map[string]any{v: !boolOf(vars[v])}
+	}
 	return nil
+}
+
+// DecVariants returns the program with one plain task leaf replaced by a decision task, for
+// every task leaf.
+func DecVariants(b *Block) []*Block {
+	var out []*Block
+	var rec func(x *Block, rebuild func(*Block) *Block)
+	rec = func(x *Block, rebuild func(*Block) *Block) {
+		if x.Kind == "task" {
+			out = append(out, rebuild(Dec()))
+		}
+		for i := range x.Kids {
+			i := i
+			rec(x.Kids[i], func(repl *Block) *Block {
+				c := *x
+				c.Kids = append([]*Block{}, x.Kids...)
+				c.Kids[i] = repl
+				return rebuild(&c)
+			})
+		}
+	}
+	rec(b, func(r *Block) *Block { return r })
+	return out
 }
 
 // Assignments enumerates all truth assignments of the program's boolean variables, together
@@ -459,7 +508,7 @@ func Tags(b *Block) string {
 	rec = func(x *Block, anc []string) {
 		k := x.Kind
 		switch k {
-		case "xor", "par", "incl", "loop", "sub", "side":
+		case "xor", "par", "incl", "loop", "sub", "side", "dec":
 			set[k] = true
 			for _, a := range anc {
 				set[a+">"+k] = true
